@@ -25,7 +25,7 @@
    RetentionProofs.boundary_only_timestamps shows that the only consumer of s.checkPoints
    (getBoundaryCheckPoint) reads nothing but the time-stamp sequence, which every admissible order
    shares (RetentionProofs.sorted_perm_same_timestamps). *)
-From Coq Require Import ZArith List Bool.
+From Coq Require Import ZArith List Bool Sorted.
 Import ListNotations.
 Local Open Scope Z_scope.
 
@@ -228,3 +228,14 @@ Fixpoint ts_sorted (l : list snap) : Prop :=
   | [] => True
   | a :: l' => (forall b, In b l' -> s_ts b <= s_ts a) /\ ts_sorted l'
   end.
+
+(* newest time stamp first (the order newCheckPoints establishes) *)
+Definition ts_desc (a b : snap) : Prop := s_ts b <= s_ts a.
+
+(* strictly decreasing positions in a newest-first list = going from older to newer *)
+Definition decreasing (l : list nat) : Prop := StronglySorted (fun a b => (b < a)%nat) l.
+
+(* a candidate property of the time series that does NOT hold (see RetentionProofs2): any two
+   sampled points are at least one sampling interval apart *)
+Definition spaced (interval : Z) (p : pmap) : Prop :=
+  forall a b, In a p -> In b p -> a <> b -> interval <= Z.abs (s_ts a - s_ts b).
